@@ -1,17 +1,18 @@
 """Translator T (C07): the straight-line functions of src/gf/ref/gfx/fp2.c -> lean/SqiGen/Fp2Ref.lean, generic over the
 operation record `FpOps α` (so `generated = hand model` is stated once for every back-end record).  Accepted statement forms:
 declarations of `fp_t` locals, calls of the fp_* API on `&(v->re)`, `&(v->im)`, `&local`, `&ONE`, scalar parameters, and
-`return <call> & <call>` / `return <call>`.  Anything else raises TranslateError.  Not translated (loops, byte buffers, `~`
-masks): fp2_sqrt, fp2_batched_inv, fp2_pow_vartime, fp2_encode, fp2_decode, fp2_print (listed; the set of functions of the
+`return <call> & <call>` / `return <call>`; for fp2_sqrt also `uint32_t v = <mask expression>` (`~`, `&`, `|`, value calls,
+`-((uint32_t)buf[0] & 1)`), mask expressions as the last argument of fp_select / fp_cswap, and `fp_encode(buf, &v)` into a local byte buffer.  Anything else raises TranslateError.  Not translated (loops, byte buffers, `~`
+): fp2_batched_inv, fp2_pow_vartime, fp2_encode, fp2_decode, fp2_print (listed; the set of functions of the
 file is checked)."""
 import os, re, sys
 
 sys.path.insert(0, os.path.dirname(os.path.dirname(os.path.abspath(__file__))))
 from vlib import write_if_changed
 
-TRANSLATED = ["fp2_set_small", "fp2_set_one", "fp2_set_zero", "fp2_is_zero", "fp2_is_equal", "fp2_is_one", "fp2_select", "fp2_cswap",
+TRANSLATED = ["fp2_sqrt", "fp2_set_small", "fp2_set_one", "fp2_set_zero", "fp2_is_zero", "fp2_is_equal", "fp2_is_one", "fp2_select", "fp2_cswap",
               "fp2_copy", "fp2_half", "fp2_add", "fp2_sub", "fp2_neg", "fp2_mul", "fp2_sqr", "fp2_inv", "fp2_is_square"]
-NOT_TRANSLATED = ["fp2_encode", "fp2_decode", "fp2_batched_inv", "fp2_sqrt", "fp2_pow_vartime", "fp2_print"]
+NOT_TRANSLATED = ["fp2_encode", "fp2_decode", "fp2_batched_inv", "fp2_pow_vartime", "fp2_print"]
 # fp_* call -> (lean op, number of inputs after the output, in-place?)
 OUT1 = {"fp_add": ("O.add", 2), "fp_sub": ("O.sub", 2), "fp_mul": ("O.mul", 2), "fp_sqr": ("O.sqr", 1), "fp_neg": ("O.neg", 1),
         "fp_half": ("O.half", 1), "fp_copy": ("", 1), "fp_set_zero": ("O.zero", 0), "fp_set_one": ("O.one", 0), "fp_set_small": ("O.setSmall", 1)}
@@ -37,8 +38,88 @@ def split_functions(src):
     return fns
 
 
+
+ETOK = re.compile(r"\s*(\w+|->|.)")
+
+
+class Expr:
+    """uint32_t mask expressions: | & ~ - ( ) (uint32_t) idents, value calls, buf[0]"""
+
+    def __init__(self, text, name, val, arg, bufs):
+        self.t = [m.group(1) for m in ETOK.finditer(text) if m.group(1).strip()]
+        self.i, self.name, self.val, self.arg, self.bufs = 0, name, val, arg, bufs
+
+    def peek(self):
+        return self.t[self.i] if self.i < len(self.t) else None
+
+    def eat(self, x=None):
+        y = self.peek()
+        if x is not None and y != x:
+            raise TranslateError("%s: expected %r got %r in expression" % (self.name, x, y))
+        self.i += 1
+        return y
+
+    def parse(self):
+        e = self.bor()
+        if self.peek() is not None:
+            raise TranslateError("%s: trailing %r in expression" % (self.name, self.peek()))
+        return e
+
+    def bor(self):
+        e = self.band()
+        while self.peek() == "|":
+            self.eat(); e = "%s ||| %s" % (P(e), P(self.band()))
+        return e
+
+    def band(self):
+        e = self.un()
+        while self.peek() == "&":
+            self.eat(); e = "%s &&& %s" % (P(e), P(self.un()))
+        return e
+
+    def un(self):
+        t = self.peek()
+        if t == "~":
+            self.eat(); return "not32 %s" % P(self.un())
+        if t == "-":
+            self.eat(); return "negw 32 %s" % P(self.un())
+        if t == "(":
+            if self.t[self.i + 1] == "uint32_t" and self.t[self.i + 2] == ")":
+                self.i += 3; return "u32 %s" % P(self.un())
+            self.eat("("); e = self.bor(); self.eat(")"); return e
+        if t == "1":
+            self.eat(); return "1"
+        name = self.eat()
+        if self.peek() == "(":
+            depth, j = 0, self.i
+            while True:
+                depth += {"(": 1, ")": -1}.get(self.t[j], 0)
+                j += 1
+                if depth == 0:
+                    break
+            inner = " ".join(self.t[self.i + 1:j - 1]).replace(" - > ", "->").replace("- >", "->")
+            self.i = j
+            if name not in VALUE:
+                raise TranslateError("%s: call of %s in an expression" % (self.name, name))
+            op, n = VALUE[name]
+            args = [self.arg(a.replace(" ", "")) for a in split_args(inner)]
+            if len(args) != n:
+                raise TranslateError("%s: arity of %s" % (self.name, name))
+            return "%s %s" % (op, " ".join(self.val(a) for a in args))
+        if self.peek() == "[":
+            self.eat("["); idx = self.eat(); self.eat("]")
+            if name not in self.bufs or idx != "0":
+                raise TranslateError("%s: buffer access %s[%s]" % (self.name, name, idx))
+            return "%s %% 256" % P(self.val(name))     # first little-endian byte of the encoded integer
+        return self.val(name)
+
+
+def P(s):
+    return s if re.match(r"[\w.']+$", s) else "(" + s + ")"
+
+
 def translate(name, ret, params, body):
-    env, cnt, lines = {}, {}, []
+    env, cnt, lines, bufs = {}, {}, [], set()
     ins, outs = [], []
     for p in [x.strip() for x in params.split(",") if x.strip()]:
         m = re.match(r"(const\s+)?fp2_t\s*\*\s*(\w+)$", p)
@@ -66,9 +147,11 @@ def translate(name, ret, params, body):
             return m.group(1)
         if re.match(r"\w+$", a):
             return a
-        raise TranslateError("%s: argument %r" % (name, a))
+        return ("expr", a)
 
     def val(k):
+        if isinstance(k, tuple) and k[0] == "expr":
+            return P(Expr(k[1], name, val, arg, bufs).parse())
         if k == "ONE":
             return "O.one"
         if k not in env:
@@ -98,6 +181,18 @@ def translate(name, ret, params, body):
         if m:
             for v in m.group(1).split(","):
                 env.pop(v.strip(), None)      # declared, undefined until written
+            continue
+        m = re.match(r"uint8_t\s+(\w+)\[FP_ENCODED_BYTES\]$", st)
+        if m:
+            bufs.add(m.group(1))
+            continue
+        m = re.match(r"uint32_t\s+(\w+)\s*=\s*(.*)$", st, flags=re.S)
+        if m:
+            assign(m.group(1), Expr(m.group(2), name, val, arg, bufs).parse())
+            continue
+        m = re.match(r"fp_encode\((\w+),\s*&(\w+)\)$", st)
+        if m and m.group(1) in bufs:
+            assign(m.group(1), "O.encode %s" % val(m.group(2)))
             continue
         m = re.match(r"return\s+(.*)$", st, flags=re.S)
         if m:
@@ -168,8 +263,8 @@ def gen(repo):
         raise TranslateError("fp2.c: functions outside the translated set: new %r, missing %r" % (unknown, missing))
     out = ["/- GENERATED by tools/translate/fp2ref.py from src/gf/ref/gfx/fp2.c — do not edit.",
            "   The straight-line GF(p²) functions over an operation record `FpOps α`; pointer parameters are inputs, non-const ones are returned. -/",
-           "import SqiModel.Gf", "", "set_option linter.unusedVariables false", "",
-           "namespace SqiGen.Fp2Ref", "open SqiModel.Gf", "variable {α : Type}", ""]
+           "import SqiModel.Gf", "import SqiModel.FpRefSem", "", "set_option linter.unusedVariables false", "",
+           "namespace SqiGen.Fp2Ref", "open SqiModel.Gf SqiModel.FpRefSem", "variable {α : Type}", ""]
     for f in TRANSLATED:
         out.append(translate(f, *fns[f]))
         out.append("")
